@@ -101,6 +101,14 @@ macro_rules! core_ops_impl {
             ) -> (Result<(), String>, sched::Report, bool, usize) {
                 crate::sched::install_hooks();
                 let mut arena = Arena::new(w, declared, declared.next_multiple_of(64) + 8192);
+                if crate::sched::nested() {
+                    // c20 MIX: this thread already runs under the scheduler, which keeps deciding at every carve
+                    let r = crate::util::catch(|| {
+                        let s: &mut Scratch<BE> = Scratch::<BE>::from_bytes(arena.window());
+                        body(s)
+                    });
+                    return (r, sched::Report::default(), arena.canaries_intact(), arena.len);
+                }
                 let range = arena.range();
                 let (r, rep) = sched::run_monitored(range, || {
                     let s: &mut Scratch<BE> = Scratch::<BE>::from_bytes(arena.window());
